@@ -88,22 +88,33 @@ WLock(i) == /\ pcw[i] \in {"g0", "su0", "wr0"} /\ Acquire(i, i)
             /\ pcw' = [pcw EXCEPT ![i] = CASE pcw[i] = "g0" -> "g1" [] pcw[i] = "su0" -> "su1" [] pcw[i] = "wr0" -> "wr1"]
             /\ UNCHANGED << st, cvR, cvU, buf, turn, over, live, nload, lstate, out, outlen, hist, pcio, cur, born, nj >>
 
-\* first statement inside wait_ready's critical section: test the predicate, leave or wait
+\* first statement inside wait_ready's critical section: test the predicate; leave, or go on to
+\* cv.wait - which is entered with the mutex still held (program points gp / wrp)
 WWaitTest(i) == /\ pcw[i] \in {"g1", "wr1"} /\ mtx[i] = i
-                /\ mtx' = [mtx EXCEPT ![i] = NoOne]
                 /\ IF ReadyPred(i)
-                   THEN /\ pcw' = [pcw EXCEPT ![i] = IF pcw[i] = "g1" THEN "ge" ELSE "chk"] /\ cvR' = cvR
-                   ELSE /\ pcw' = [pcw EXCEPT ![i] = IF pcw[i] = "g1" THEN "gw" ELSE "wrw"]
-                        /\ cvR' = [cvR EXCEPT ![i] = @ \cup {i}]
-                /\ UNCHANGED << st, cvU, buf, turn, over, live, nload, lstate, out, outlen, hist, pcio, cur, born, nj >>
+                   THEN /\ pcw' = [pcw EXCEPT ![i] = IF pcw[i] = "g1" THEN "ge" ELSE "chk"]
+                        /\ mtx' = [mtx EXCEPT ![i] = NoOne]
+                   ELSE /\ pcw' = [pcw EXCEPT ![i] = IF pcw[i] = "g1" THEN "gp" ELSE "wrp"]
+                        /\ mtx' = mtx
+                /\ UNCHANGED << st, cvR, cvU, buf, turn, over, live, nload, lstate, out, outlen, hist, pcio, cur, born, nj >>
+
+\* cv.wait proper: release the mutex and join the waiter set in one atomic step (that atomicity is
+\* what the condition-variable contract provides; a notifier that does not hold the mutex can still
+\* slip in before it - the classic lost wake-up)
+WEnqueue(i) == /\ pcw[i] \in {"gp", "wrp"} /\ mtx[i] = i
+               /\ mtx' = [mtx EXCEPT ![i] = NoOne]
+               /\ cvR' = [cvR EXCEPT ![i] = @ \cup {i}]
+               /\ pcw' = [pcw EXCEPT ![i] = IF pcw[i] = "gp" THEN "gw" ELSE "wrw"]
+               /\ UNCHANGED << st, cvU, buf, turn, over, live, nload, lstate, out, outlen, hist, pcio, cur, born, nj >>
 
 \* wake-up: removed from the waiter set by a notify (or spuriously), re-acquire, re-check
 WWake(i) == /\ pcw[i] \in {"gw", "wrw"} /\ (i \notin cvR[i] \/ Spurious) /\ mtx[i] = NoOne
+            /\ cvR' = [cvR EXCEPT ![i] = @ \ {i}]
             /\ IF ReadyPred(i) \/ ~WaitLoop
-               THEN /\ pcw' = [pcw EXCEPT ![i] = IF pcw[i] = "gw" THEN "ge" ELSE "chk"]
-                    /\ cvR' = [cvR EXCEPT ![i] = @ \ {i}]
-               ELSE /\ pcw' = pcw /\ cvR' = [cvR EXCEPT ![i] = @ \cup {i}]
-            /\ UNCHANGED << st, mtx, cvU, buf, turn, over, live, nload, lstate, out, outlen, hist, pcio, cur, born, nj >>
+               THEN /\ pcw' = [pcw EXCEPT ![i] = IF pcw[i] = "gw" THEN "ge" ELSE "chk"] /\ mtx' = mtx
+               ELSE /\ pcw' = [pcw EXCEPT ![i] = IF pcw[i] = "gw" THEN "gp" ELSE "wrp"]
+                    /\ mtx' = [mtx EXCEPT ![i] = i]
+            /\ UNCHANGED << st, cvU, buf, turn, over, live, nload, lstate, out, outlen, hist, pcio, cur, born, nj >>
 
 \* get_entry (unsynchronised): now < total ? b[now++] : NULL
 WGetEntry(i) == /\ pcw[i] = "ge"
@@ -140,7 +151,7 @@ WCheck(i) == /\ pcw[i] = "chk"
                 ELSE /\ pcw' = [pcw EXCEPT ![i] = "done"] /\ UNCHANGED << buf, cur, born, nj >>
              /\ UNCHANGED << st, mtx, cvR, cvU, turn, over, live, nload, lstate, out, outlen, hist, pcio, born, nj >>
 
-Worker(i) == WStart(i) \/ WLock(i) \/ WWaitTest(i) \/ WWake(i) \/ WGetEntry(i) \/ WCry(i) \/ WSetUpdate(i) \/ WCheck(i)
+Worker(i) == WStart(i) \/ WLock(i) \/ WWaitTest(i) \/ WEnqueue(i) \/ WWake(i) \/ WGetEntry(i) \/ WCry(i) \/ WSetUpdate(i) \/ WCheck(i)
 
 \* ---- I/O thread ------------------------------------------------------------------
 \* run_multicry: create the T worker threads one after the other
@@ -153,14 +164,19 @@ IOLock == /\ pcio \in {"wu0", "sr0"} /\ Acquire(turn, IO)
           /\ pcio' = IF pcio = "wu0" THEN "wu1" ELSE "sr1"
           /\ UNCHANGED << st, cvR, cvU, buf, turn, over, live, nload, lstate, out, outlen, hist, pcw, cur, born, nj >>
 IOWaitTest == /\ pcio = "wu1" /\ mtx[turn] = IO
-              /\ mtx' = [mtx EXCEPT ![turn] = NoOne]
-              /\ IF UpdPred THEN pcio' = "bu" /\ cvU' = cvU
-                 ELSE pcio' = "wuw" /\ cvU' = [cvU EXCEPT ![turn] = @ \cup {IO}]
-              /\ UNCHANGED << st, cvR, buf, turn, over, live, nload, lstate, out, outlen, hist, pcw, cur, born, nj >>
+              /\ IF UpdPred THEN pcio' = "bu" /\ mtx' = [mtx EXCEPT ![turn] = NoOne]
+                 ELSE pcio' = "wup" /\ mtx' = mtx
+              /\ UNCHANGED << st, cvR, cvU, buf, turn, over, live, nload, lstate, out, outlen, hist, pcw, cur, born, nj >>
+IOEnqueue == /\ pcio = "wup" /\ mtx[turn] = IO
+             /\ mtx' = [mtx EXCEPT ![turn] = NoOne]
+             /\ cvU' = [cvU EXCEPT ![turn] = @ \cup {IO}]
+             /\ pcio' = "wuw"
+             /\ UNCHANGED << st, cvR, buf, turn, over, live, nload, lstate, out, outlen, hist, pcw, cur, born, nj >>
 IOWake == /\ pcio = "wuw" /\ (IO \notin cvU[turn] \/ Spurious) /\ mtx[turn] = NoOne
-          /\ IF UpdPred THEN pcio' = "bu" /\ cvU' = [cvU EXCEPT ![turn] = @ \ {IO}]
-             ELSE pcio' = pcio /\ cvU' = [cvU EXCEPT ![turn] = @ \cup {IO}]
-          /\ UNCHANGED << st, mtx, cvR, buf, turn, over, live, nload, lstate, out, outlen, hist, pcw, cur, born, nj >>
+          /\ cvU' = [cvU EXCEPT ![turn] = @ \ {IO}]
+          /\ IF UpdPred THEN pcio' = "bu" /\ mtx' = mtx
+             ELSE pcio' = "wup" /\ mtx' = [mtx EXCEPT ![turn] = IO]
+          /\ UNCHANGED << st, cvR, buf, turn, over, live, nload, lstate, out, outlen, hist, pcw, cur, born, nj >>
 \* buffer_update: unsynchronised cmpstate(UPDATING) -> export; else load (unless over); else set_ready
 AfterExport == IF over THEN "sr0" ELSE "ld0"
 IOBegin == /\ pcio = "bu"
@@ -212,7 +228,7 @@ IOJoin == /\ pcio = "join" /\ pcw[nj] = "done"
           /\ nj' = IF nj + 1 = T THEN nj ELSE nj + 1
           /\ pcio' = IF nj + 1 = T THEN "done" ELSE "join"
           /\ UNCHANGED << st, mtx, cvR, cvU, buf, turn, over, live, nload, lstate, out, outlen, hist, pcw, cur, born >>
-IOThread == IOSpawn \/ IOLock \/ IOWaitTest \/ IOWake \/ IOBegin \/ IOExport \/ IOExportEnd \/ IOLoad \/ IOLoadEnd
+IOThread == IOSpawn \/ IOLock \/ IOWaitTest \/ IOEnqueue \/ IOWake \/ IOBegin \/ IOExport \/ IOExportEnd \/ IOLoad \/ IOLoadEnd
             \/ IOSetReady \/ IOTurn \/ IOJoin
 
 Done == pcio = "done" /\ \A i \in Bufs : pcw[i] = "done"
@@ -251,6 +267,6 @@ Quiescent == Done => live = 0 /\ (\A i \in Bufs : st[i] = "INV" /\ mtx[i] = NoOn
 \* C04
 Termination == <>Done
 \* mutual exclusion sanity of the model itself
-LockDiscipline == \A i \in Bufs : (pcw[i] \in {"g1", "su1", "wr1"} => mtx[i] = i)
-                                  /\ (pcio \in {"wu1", "sr1"} => mtx[turn] = IO)
+LockDiscipline == \A i \in Bufs : (pcw[i] \in {"g1", "gp", "su1", "wr1", "wrp"} => mtx[i] = i)
+                                  /\ (pcio \in {"wu1", "wup", "sr1"} => mtx[turn] = IO)
 =============================================================================
